@@ -15,13 +15,13 @@ from slimta.envelope import Envelope
 
 ID = 'C20'
 LEVEL = 'exploration'
-RULE = ('structured: constructive generator of well-formed header blocks (1..8 fields, ftext names, lines <=78 bytes, '
+RULE = ('structured: constructive generator of well-formed header blocks (1..8 fields, ftext names, lines mostly <=78 bytes with boundary lengths 76..80 and long lines up to 998, '
         'folded continuation lines with non-blank text, 8-bit bytes, duplicates, CRLF or LF) + arbitrary body bytes; '
         'weak: arbitrary byte strings; 7bit: utf-8 text bodies with base64 / quoted-printable / no encoder. '
         'non-trivial = folded or 8-bit or duplicate header, body starting with a blank line or containing NUL / lone CR, '
         'or (weak) input without a well-formed header block, or (7bit) body with 8-bit text; distinct = distinct input bytes')
 ASSUMPTIONS = ['field bodies are drawn from HT, SP, 0x21-0x7e, 0x80-0xff (no C0 controls that str.splitlines treats as line breaks)',
-               'values have no leading/trailing white space, continuation lines are not white-space only, lines <= 78 bytes',
+               'values have no leading/trailing white space, continuation lines are not white-space only, lines <= 998 bytes (mostly <= 78)',
                'the stdlib email package is the trusted decoder for the 7-bit conversion oracle']
 
 
@@ -202,7 +202,14 @@ def value_line(draw, maxlen, first):
 def field(draw):
     name = draw(_names)
     sep = draw(st.sampled_from([b' ', b' ', b'', b'   ', b'\t']))
-    first = draw(value_line(78 - len(name) - 2 - len(sep), True))
+    room = 78 - len(name) - 1 - len(sep)
+    first = draw(value_line(room, True))        # the whole first line may be exactly 78 bytes
+    if draw(st.integers(0, 5)) == 0:
+        # boundary: the first line is exactly 76, 77 or 78 bytes long
+        want = draw(st.sampled_from([room, room, room - 1, room - 2, room + 1, room + 2, 200, 500, 990 - len(name)]))   # RFC 5322: <= 998
+        filler = draw(st.sampled_from([b'x', b'ab ', b'\xc3\xa9b ', b'word, ', b'a@b.example, ']))
+        first = (filler * 1000)[:want].strip(b' \t')
+        first = first + b'z' * (want - len(first))
     lines = [first]
     for _ in range(draw(st.sampled_from([0, 0, 0, 1, 2]))):
         lines.append(draw(value_line(78, False)))
